@@ -3,7 +3,8 @@
 Proof: lean/IstioModel/C05/Theorems.lean (every re-sent subscription answered, SotW and delta, any retained
 nonce; EDS-after-CDS warming answer; delta wildcard resync from any retained state incl. explicit removal of
 what was deleted while away; WDS version-skip soundness), ReconnectTheorems.lean (the whole request handler on a
-fresh stream: CDS with the forced EDS push, delta named types, on-demand WDS with retained versions),
+fresh stream: CDS with the forced EDS push, delta named types, on-demand WDS with retained versions), WauthTheorems.lean
+(ztunnel Authorization type over the C03 model of WorkloadRBACGenerator),
 RegTheorems.lean (registration vs. the two halves of Push: witnesses of the missed-snapshot window for the
 unrepaired initConnection and for the reverse order inside Push, registration_no_miss for every interleaving
 of the code as it is; start-up: never_served_cold with witnesses for a missing readiness gate / InitContext)
@@ -24,7 +25,7 @@ from checks import e2e_common
 import importlib
 c03check = importlib.import_module("checks.C03")  # shares the harness, the system model and the oracle plumbing
 
-THEOREMS = ["IstioModel.C05.Theorems", "IstioModel.C05.ReconnectTheorems", "IstioModel.C05.RegTheorems"]
+THEOREMS = ["IstioModel.C05.Theorems", "IstioModel.C05.ReconnectTheorems", "IstioModel.C05.WauthTheorems", "IstioModel.C05.RegTheorems"]
 
 
 def warm(ctx):
@@ -124,7 +125,8 @@ MANIFEST = {
     "level_text": ("Lean 4 proof: a reconnect is a fresh watch table facing arbitrary retained client state; theorems: every re-sent subscription is answered "
                    "(SotW and delta, any retained nonce), the ACK-shaped EDS request after CDS is answered (warming), the first delta answer brings a wildcard-type "
                    "client exactly to the current set from ANY retained state with explicit removal of what was deleted while away - at the level of the whole "
-                   "request handler for LDS/NDS and for CDS with its forced EDS push -, delta named types (EDS/RDS/SDS) and on-demand WDS with retained versions, "
+                   "request handler for LDS/NDS, for CDS with its forced EDS push and for the ztunnel Authorization type -, delta named types (EDS/RDS/SDS) and "
+                   "on-demand WDS with retained versions, "
                    "WDS version-skip soundness on the exact generator model; registration vs. publication with Push split into publish and enqueue (no-miss for "
                    "every interleaving, witnesses for the unrepaired registration and for the reverse order inside Push); start-up model (never served before "
                    "ready / from a never-initialised context, with witnesses). Tied to /repo by differential streams through the real request/push handlers "
@@ -134,7 +136,7 @@ MANIFEST = {
                    "handlers / workload generator); CDS/EDS/LDS/RDS generators are abstract in the theorems (full-set / always-answer classes) and only observed by the "
                    "e2e stream; the Reg (initConnection vs Push) and Boot (start-up) models are modelled from reading and tied only by scripted observations on a fake "
                    "server (verif gate points; start-up is emulated on a synced server, bootstrap's waitForCacheSync is read, not executed) - partial for those parts; "
-                   "WorkloadRBACGenerator / Workload type reconnects are not covered here (C03); hooks pilot/pkg/xds/zz_verif_c03.go, zz_verif_c04.go, zz_verif_c05.go, "
+                   "the Authorization type is covered through the C03 model of WorkloadRBACGenerator (wds stream, WauthTheorems.lean), the Workload type only by the wds stream; hooks pilot/pkg/xds/zz_verif_c03.go, zz_verif_c04.go, zz_verif_c05.go, "
                    "zz_verif_e2e.go and four verifGate lines in ads.go / discovery.go."),
     "technique": "Lean 4 theorems over the shared C03/C04 models of delta/SotW bookkeeping with a reconnect operation + differential correspondence with the real Go handlers + scripted end-to-end observation",
     "design_ref": "DESIGN.md section 5 C05",
